@@ -299,9 +299,11 @@ class Graph(StateRepresentationBase):
         :rtype: bool
         """
         assert isinstance(graph, Graph)
-        # Check if all local Clifford gates are Identity
+        # Check if all local Clifford gates are Identity (a word that multiplies to the identity is stored as the
+        # library's representative [Identity, Identity], a node without gates as [Identity])
+        identity = ops.simplify_local_clifford([ops.Identity])
         for node in graph.data.nodes:
-            if graph.data.nodes[node]["LC"] != [ops.Identity]:
+            if ops.simplify_local_clifford(graph.data.nodes[node]["LC"]) != identity:
                 return False
         return True
 
